@@ -38,6 +38,20 @@ pub fn fnv64(data: &[u8]) -> u64 {
     h
 }
 
+/// digest of a large buffer, eight bytes at a time (used for whole-memory comparisons)
+pub fn digest_words(data: &[u8]) -> u64 {
+    let mut h: u64 = 0x9E3779B97F4A7C15;
+    let mut it = data.chunks_exact(8);
+    for c in &mut it {
+        let w = u64::from_le_bytes([c[0], c[1], c[2], c[3], c[4], c[5], c[6], c[7]]);
+        h = (h ^ w).wrapping_mul(0x100000001b3).rotate_left(23);
+    }
+    for b in it.remainder() {
+        h = (h ^ *b as u64).wrapping_mul(0x100000001b3);
+    }
+    h
+}
+
 pub fn fnv_str(s: &str) -> u64 {
     fnv64(s.as_bytes())
 }
